@@ -14,6 +14,7 @@ mod ops;
 mod props;
 mod refparse;
 mod run;
+mod sched;
 mod runner;
 mod synth;
 mod upper_table;
